@@ -474,10 +474,7 @@ func (tb *termBuilder) term(v ssa.Value, at ssa.Instruction) *Term {
 		}
 		return &Term{Op: "slice", Args: args, V: v, In: x}
 	case *ssa.Alloc:
-		name := x.Comment
-		if name == "" {
-			name = x.Name()
-		}
+		name := allocName(x)
 		if x.Comment == "complit" && at != nil && at != ssa.Instruction(x) {
 			// pointer to a composite literal: show what it points to at the point of use
 			inner := tb.loadLocal(x, nil, at)
@@ -677,10 +674,7 @@ func canonOrderCall(t *Term) *Term {
 func (tb *termBuilder) addrBase(addr ssa.Value, at ssa.Instruction) *Term {
 	switch a := addr.(type) {
 	case *ssa.Alloc:
-		name := a.Comment
-		if name == "" {
-			name = a.Name()
-		}
+		name := allocName(a)
 		return &Term{Op: "addr", Name: name, V: a}
 	case *ssa.FieldAddr:
 		st := deref(a.X.Type()).Underlying().(*types.Struct)
@@ -950,11 +944,21 @@ func reachingDefs(alloc *ssa.Alloc, path []int, at ssa.Instruction) []*def {
 	return out
 }
 
-func (tb *termBuilder) loadLocal(alloc *ssa.Alloc, path []int, at ssa.Instruction) *Term {
-	name := alloc.Comment
-	if name == "" {
-		name = alloc.Name()
+// allocName: how a local memory cell is spelled in terms. Cells the compiler introduced keep their role name (new,
+// complit, makeslice, slicelit, varargs); a cell that holds a source variable is named by its TYPE, not by the
+// variable's name, so that renaming a local or a parameter changes no term.
+func allocName(a *ssa.Alloc) string {
+	switch a.Comment {
+	case "new", "complit", "makeslice", "slicelit", "varargs", "makemap", "makechan", "range", "typeassert,ok", "select":
+		return a.Comment
+	case "":
+		return a.Name()
 	}
+	return typeStr(deref(a.Type()))
+}
+
+func (tb *termBuilder) loadLocal(alloc *ssa.Alloc, path []int, at ssa.Instruction) *Term {
+	name := allocName(alloc)
 	defs := reachingDefs(alloc, path, at)
 	var alts []*Term
 	seen := map[string]bool{}
